@@ -1,8 +1,295 @@
-/- Driver handlers for area `conc` (stub: replace `handle`). -/
+/- Driver handlers for area `conc` (C19): schedule-for-schedule replay of the interleaving models. -/
 import VDriver.Util
+import VModel.ConcDns
+import VModel.ConcFetch
 namespace V.Driver.ConcOps
-open V V.Driver
+open V V.Driver V.Conc
 
-def handle (_op : String) (_args : Array String) : Option String := none
+/-! ## DNS cache
+
+op line:  conc.dns  <cap>  <regime>  <ops>  <sched>  <impl trace>
+  cap     decimal, the cache's `size`
+  regime  h : duration 1h (nothing expires) | n : duration -1s (everything is expired when stored)
+          s : duration 500ms with real sleeps (`z` moves) of 650ms
+  ops     goroutines separated by `;`, ops by `,`:  `a` lookup a | `a!` lookup a, resolver fails | `-a` delete a
+  sched   one char per harness move: p, q, r = poke goroutine 0, 1, 2; `z` = sleep past the duration
+  trace   moves joined by `|`; a move is  <obs>[<sorted cache keys joined by ,>]
+          obs:  R<g>:<n>:h:<addrs> | R<g>:<n>:m:<addrs> | F<g>:<n> | D<g>:<n> | B<g>:<n> | - | Z ; the trace ends early with H<g> (hang)
+-/
+
+def nameIdx (n : String) : Nat :=
+  match n.toList with
+  | [c] => if 'a' ≤ c ∧ c ≤ 'z' then c.toNat - 'a'.toNat else 25
+  | _ => 26
+
+/-- the scripted resolver's answer for a host name (a function of the name): 10.0.0.(i+1), and for odd i also 10.0.1.(i+1) -/
+def ansOf (n : String) : List Nat :=
+  let i := nameIdx n
+  if i % 2 == 1 then [i + 1, 256 + i + 1] else [i + 1]
+
+def dnsResolver (n : String) (sel : Nat) : Option (List Nat) := if sel == 0 then some (ansOf n) else none
+
+def parseOp (s : String) : Option Dns.Op :=
+  match s.toList with
+  | ['-', c] => some (.del (String.singleton c))
+  | [c, '!'] => some (.lookup (String.singleton c) 1)
+  | [c] => some (.lookup (String.singleton c) 0)
+  | _ => none
+
+def parseOps (s : String) : Option (List (List Dns.Op)) :=
+  (s.splitOn ";").mapM (fun g => if g == "" then some [] else (g.splitOn ",").mapM parseOp)
+
+def showAddrs (a : List Nat) : String := String.intercalate "+" (a.map toString)
+
+def showObs : Dns.Obs → String
+  | .ret g (.hit n e) => s!"R{g}:{n}:h:{showAddrs e.addrs}"
+  | .ret g (.miss n e) => s!"R{g}:{n}:m:{showAddrs e.addrs}"
+  | .ret g (.fail n) => s!"F{g}:{n}"
+  | .ret g (.deleted n) => s!"D{g}:{n}"
+  | .blocked g n => s!"B{g}:{n}"
+  | .noop => "-"
+  | .hang g => s!"H{g}"
+  | .stuck => "X"
+
+def sortStrs (l : List String) : List String := l.mergeSort (fun a b => decide (a ≤ b))
+
+def showKeys (s : Dns.State) : String := "[" ++ String.intercalate "," (sortStrs (s.entries.map (·.1))) ++ "]"
+
+structure Regime where
+  dur : Int
+  tick : Int
+  sleep : Int
+
+def regimeOf : String → Option Regime
+  | "h" => some ⟨1000000000, 1, 0⟩
+  | "n" => some ⟨-1, 1, 0⟩
+  | "s" => some ⟨1000, 1, 1500⟩
+  | _ => none
+
+def dnsReplay (c : Dns.Cfg) (rg : Regime) : List Char → Dns.State → Int → List String → List String
+  | [], _, _, acc => acc.reverse
+  | ch :: rest, s, t, acc =>
+    if ch == 'z' then
+      dnsReplay c rg rest s (t + rg.sleep) (("Z" ++ showKeys s) :: acc)
+    else
+      let g := ch.toNat - 'p'.toNat
+      let t' := t + rg.tick
+      let (s', o) := Dns.poke c 64 s g t'
+      match o with
+      | .hang _ => (showObs o :: acc).reverse
+      | _ => dnsReplay c rg rest s' t' ((showObs o ++ showKeys s') :: acc)
+
+def dnsModel (cap : Int) (rg : Regime) (todos : List (List Dns.Op)) (sched : String) : String :=
+  let c : Dns.Cfg := ⟨cap, rg.dur, dnsResolver⟩
+  String.intercalate "|" (dnsReplay c rg sched.toList (Dns.init todos 0) 0 [])
+
+/-! ### the property's predicates, evaluated on the IMPLEMENTATION's trace -/
+
+structure SpecSt where
+  idx : List Nat                 -- per goroutine: index of its current op
+  stored : List String           -- names stored since the last sleep (regime s)
+
+def opAt (todos : List (List Dns.Op)) (g i : Nat) : Option Dns.Op := (todos[g]?).bind (·[i]?)
+
+def bump (l : List Nat) (g : Nat) : List Nat := l.set g ((l[g]?).getD 0 + 1)
+
+def hasDup : List String → Bool
+  | [] => false
+  | x :: xs => xs.contains x || hasDup xs
+
+/-- check one move of the implementation's trace; `none` = fine -/
+def specMove (cap : Int) (regime : String) (todos : List (List Dns.Op)) (st : SpecSt) (mv : String) : SpecSt × Option String :=
+  -- split "<obs>[keys]"
+  match mv.splitOn "[" with
+  | [obs, ks] =>
+    let keys := if ks == "]" then [] else ((ks.dropEnd 1).toString.splitOn ",")
+    let sizeBad := (keys.length : Int) > max cap 0
+    if sizeBad then (st, some "size-exceeded") else
+    if hasDup keys then (st, some "duplicate-key") else
+    let f := obs.splitOn ":"
+    match obs.toList.head?, f with
+    | some 'R', [rg, n, hm, ad] =>
+      let g := (rg.drop 1).toString.toNat?.getD 99
+      let cur := opAt todos g ((st.idx[g]?).getD 0)
+      let st' : SpecSt := ⟨bump st.idx g, if hm == "m" then n :: st.stored else st.stored⟩
+      if cur != some (.lookup n 0) && cur != some (.lookup n 1) then (st', some "answer-for-another-request")
+      else if ad != showAddrs (ansOf n) then (st', some "wrong-host-addresses")
+      else if hm == "h" && regime == "n" then (st', some "stale-entry-served")
+      else if hm == "h" && regime == "s" && !st.stored.contains n then (st', some "stale-entry-served")
+      else if hm == "h" && !keys.contains n then (st', some "hit-without-entry")
+      else if hm == "m" && cap > 0 && !keys.contains n then (st', some "not-stored-under-requested-name")
+      else (st', none)
+    | some 'F', [rg, n] =>
+      let g := (rg.drop 1).toString.toNat?.getD 99
+      let cur := opAt todos g ((st.idx[g]?).getD 0)
+      let st' : SpecSt := ⟨bump st.idx g, st.stored⟩
+      if cur != some (.lookup n 1) then (st', some "failed-though-resolver-answered") else (st', none)
+    | some 'D', [rg, n] =>
+      let g := (rg.drop 1).toString.toNat?.getD 99
+      (⟨bump st.idx g, st.stored⟩, if keys.contains n then some "deleted-entry-present" else none)
+    | some 'B', [_, _] => (st, none)
+    | some '-', _ => (st, none)
+    | some 'Z', _ => (⟨st.idx, []⟩, none)
+    | _, _ => (st, some "bad-trace")
+  | _ =>
+    if mv.startsWith "H" then (st, some "hang") else (st, some "bad-trace")
+
+def specLoop (cap : Int) (regime : String) (todos : List (List Dns.Op)) : List String → Nat → SpecSt → Option String
+  | [], _, _ => none
+  | mv :: rest, i, st =>
+    match specMove cap regime todos st mv with
+    | (_, some why) => some s!"violates:{why}@move{i}"
+    | (st', none) => specLoop cap regime todos rest (i + 1) st'
+
+def dnsSpec (cap : Int) (regime : String) (todos : List (List Dns.Op)) (sched trace : String) : String :=
+  let mvs := trace.splitOn "|"
+  match specLoop cap regime todos mvs 0 ⟨todos.map (fun _ => 0), []⟩ with
+  | some v => v
+  | none => if mvs.length != sched.length then "violates:incomplete-trace" else trace
+
+def handleDns (args : List String) : Option String :=
+  match args with
+  | [cap, regime, ops, sched, trace] =>
+    match cap.toInt?, regimeOf regime, parseOps ops with
+    | some cp, some rg, some todos =>
+      some (dnsModel cp rg todos sched ++ "\t" ++ dnsSpec cp regime todos sched trace)
+    | _, _, _ => some "bad-op"
+  | _ => some "bad-op"
+
+/-! ## FetchKeys
+
+op line:  conc.fetch  <cfg>  <sched>  <impl outcome>
+  cfg     servers separated by `;` (server i is named s<i>):  <kids>:<direct>:<notary>
+          kids    requested key ids, `,`-separated codes: a = ed25519:a, z = ed25519:zz
+          direct  L local server name | E error | G good | M good, several keys, old key overriding a verify key |
+                  U unsigned | P partly signed | Z valid_until_ts = 0 | C no ed25519 key | W response names another server
+          notary  E error | N no entry for the server | G [other server, good] | B [unsigned, good] (first match is bad) |
+                  M [several keys] | - (local)
+  sched   letters p, q, …, y: release the pending client call of server 0, 1, …, 9 (no-op if it has none); afterwards every
+          remaining call is released in index order
+  outcome <per move: `>` went on to the notary, `.` job done, `-` no-op>#<sorted results: srv/kid=K<i>.<j>:<validUntil>:<expired>, …>
+conc.fetchbig  <cfg>  <policy>  <impl outcome>  : more than 64 servers (the queue is used); outcome = `#results` only.
+-/
+
+open Fetch in
+def kidOf : String → String
+  | "a" => "ed25519:a"
+  | "z" => "ed25519:zz"
+  | x => x
+
+open Fetch in
+def respG (name : String) (i vu : Nat) (k0 k1 : Nat) (chk : KCheck) : Resp :=
+  ⟨name, vu, [("ed25519:a", 10 * i + k0, chk)], [("ed25519:o", 10 * i + k1, 500 + i)]⟩
+
+open Fetch in
+def respM (name : String) (i vu : Nat) (chkB : KCheck) : Resp :=
+  ⟨name, vu, [("ed25519:a", 10 * i + 0, .ok), ("ed25519:b", 10 * i + 2, chkB), ("x25519:c", 10 * i + 3, .notEd)],
+   [("ed25519:b", 10 * i + 1, 500 + i)]⟩
+
+open Fetch in
+def directOf (i : Nat) (code : String) : Option Resp :=
+  let s := s!"s{i}"
+  match code with
+  | "G" => some (respG s i (1000 + i) 0 1 .ok)
+  | "M" => some (respM s i (1000 + i) .ok)
+  | "U" => some (respG s i (1000 + i) 0 1 .bad)
+  | "P" => some (respM s i (1000 + i) .bad)
+  | "Z" => some (respG s i 0 0 1 .ok)
+  | "C" => some ⟨s, 1000 + i, [("x25519:c", 10 * i + 3, .notEd)], []⟩
+  | "W" => some (respG s!"w{i}" i (1000 + i) 4 5 .ok)
+  | _ => none
+
+open Fetch in
+def notaryOf (i : Nat) (code : String) : Option (List Resp) :=
+  let s := s!"s{i}"
+  match code with
+  | "N" => some [respG s!"w{i}" i (2000 + i) 4 5 .ok]
+  | "G" => some [respG s!"w{i}" i (2000 + i) 4 5 .ok, respG s i (2000 + i) 0 1 .ok]
+  | "B" => some [respG s i (2000 + i) 0 1 .bad, respG s i (2000 + i) 0 1 .ok]
+  | "M" => some [respM s i (2000 + i) .ok]
+  | _ => none
+
+structure SrvCfg where
+  kids : List String
+  direct : String
+  notary : String
+
+def parseSrv (s : String) : Option SrvCfg :=
+  match s.splitOn ":" with
+  | [k, d, n] => some ⟨if k == "" then [] else (k.splitOn ",").map kidOf, d, n⟩
+  | _ => none
+
+def srvIdx (s : String) : Option Nat :=
+  match s.toList with
+  | 's' :: ds => (String.ofList ds).toNat?
+  | _ => none
+
+open Fetch in
+def fetchCfg (srvs : List SrvCfg) : Cfg :=
+  let arr := srvs.toArray
+  let code (sel : SrvCfg → String) (s : String) : Option (Nat × String) :=
+    match srvIdx s with
+    | some i => (arr[i]?).map (fun c => (i, sel c))
+    | none => none
+  { requests := (List.range srvs.length).flatMap (fun i => ((arr[i]?).map (·.kids)).getD [] |>.map (fun k => (s!"s{i}", k))),
+    isLocal := fun s => match code (·.direct) s with | some (_, d) => d == "L" | none => false,
+    localKey := 9999,
+    direct := fun s => match code (·.direct) s with | some (i, d) => directOf i d | none => none,
+    notary := fun s => match code (·.notary) s with | some (i, d) => notaryOf i d | none => none }
+
+open Fetch in
+def showVal (v : Val) : String :=
+  (if v.key == 9999 then "KL" else s!"K{v.key / 10}.{v.key % 10}") ++ s!":{v.validUntilTS}:{v.expiredTS}"
+
+open Fetch in
+def showResults (m : RMap) : String :=
+  String.intercalate "," (sortStrs (m.map (fun p => s!"{p.1.1}/{p.1.2}={showVal p.2}")))
+
+open Fetch in
+def fetchFinish (c : Cfg) (n : Nat) : Nat → State → State
+  | 0, s => s
+  | fuel + 1, s =>
+    if s.wait == 0 then s else
+    let s' := (List.range n).foldl (fun acc i => (release c (release c acc s!"s{i}").1 s!"s{i}").1) s
+    fetchFinish c n fuel s'
+
+open Fetch in
+def fetchModel (srvs : List SrvCfg) (sched : List Char) (withTrace : Bool) : String :=
+  let c := fetchCfg srvs
+  let order := byServerKeys c
+  let s0 := startAll c (init c order)
+  let (s1, tr) := sched.foldl (fun (acc : State × String) ch =>
+      let (s', o) := release c acc.1 s!"s{ch.toNat - 'p'.toNat}"
+      (s', acc.2 ++ o)) (s0, "")
+  let s2 := fetchFinish c srvs.length (srvs.length + 2) s1
+  match step c s2 .main with
+  | some s3 => (if withTrace then tr else "") ++ "#" ++ showResults s3.results ++ (if s3.negWait then "!negative-waitgroup" else "")
+  | none => "stuck"
+
+open Fetch in
+def fetchSpec (srvs : List SrvCfg) (impl : String) : String :=
+  -- the property: the result is the sequential union, whatever the schedule; nothing hangs
+  match impl.splitOn "#" with
+  | [tr, _] => tr ++ "#" ++ showResults (specMap (fetchCfg srvs))
+  | _ => "violates:" ++ "no-result"
+
+def handleFetch (withTrace : Bool) (args : List String) : Option String :=
+  match args with
+  | [cfg, sched, impl] =>
+    match (cfg.splitOn ";").mapM parseSrv with
+    | some srvs => some (fetchModel srvs (if withTrace then sched.toList else []) withTrace ++ "\t" ++ fetchSpec srvs impl)
+    | none => some "bad-op"
+  | _ => some "bad-op"
+
+/-! ## getTransport: the model of a sequence of locked regions; race-detector ops have the model outcome `clean` -/
+
+def handle (op : String) (args : Array String) : Option String :=
+  match op with
+  | "dns" => handleDns args.toList
+  | "dns_size0" => handleDns args.toList
+  | "fetch" => handleFetch true args.toList
+  | "fetchbig" => handleFetch false args.toList
+  | "race_dns" | "race_fetch" | "race_transport" | "race_event_readonly" | "race_eventid" => some "clean\tclean"
+  | _ => none
 
 end V.Driver.ConcOps
